@@ -103,3 +103,10 @@ Theorem C17_client_read_returns_queue_head : forall haskey keyf s dest direct ad
   q_state (fst (fst (cli_read haskey keyf s dest direct addr objcnt size signed raw during))) = Q_IDLE.
 Proof. exact read_returns_queue_head. Qed.
 Print Assumptions C17_client_read_returns_queue_head.
+(* T17.5 (write, client): on the server's proceed the query sends ONE DM16 carrying exactly the stored bytes, in the
+   framing whose extraction returns them unchanged (C17_dm16_roundtrip; server side: C17_write_stores_exact_bytes) *)
+Theorem C17_client_write_sends_exact_bytes : forall s dest,
+  q_dest s = Some dest -> q_state s = Q_WAIT_FOR_SEED -> q_command s = 2 ->
+  cwait_for_data s = (cset_state s Q_WAIT_FOR_OPER, [CSend 215 (Z.land dest 255) 6 (Dm14Model.dm16_frame (q_bytes s))], None).
+Proof. exact write_sends_exact_bytes. Qed.
+Print Assumptions C17_client_write_sends_exact_bytes.
